@@ -203,7 +203,8 @@ instance (a b c : Nat) : Decidable (InDocumentedRange a b c) := inferInstanceAs 
 
 /-- What `DBConfig::new` produces is what the engine runs with, both in the creating session and after the
     settings went through page zero and `Pager::open` read them back. -/
-theorem config_roundtrip (page cache pool minKeys siblings : Nat) (h : InDocumentedRange cache minKeys siblings) :
+theorem config_roundtrip (page cache pool minKeys siblings : Nat)
+    (h : InDocumentedRange cache (max minKeys treeMinKeys) siblings) :
     let c := Config.new page cache pool minKeys siblings
     effectiveAtCreate Defects.none c = requested c ∧
     effectiveAtOpen Defects.none (toHeader Defects.none c) = requested c := by
@@ -212,21 +213,33 @@ theorem config_roundtrip (page cache pool minKeys siblings : Nat) (h : InDocumen
   simp only [effectiveAtCreate, effectiveAtOpen, requested, toHeader, Config.new, headerCacheSize,
     Defects.none]
   have e1 : clampPage page % 2 ^ 32 = clampPage page := Nat.mod_eq_of_lt (by omega)
-  have e2 : minKeys % 2 ^ 8 = minKeys := Nat.mod_eq_of_lt (by omega)
+  have e2 : max minKeys treeMinKeys % 2 ^ 8 = max minKeys treeMinKeys := Nat.mod_eq_of_lt (by omega)
   have e3 : siblings % 2 ^ 8 = siblings := Nat.mod_eq_of_lt (by omega)
   have e4 : min cache 65535 = cache := by omega
   simp [e1, e2, e3, e4]
 
+/-- Whatever is asked for, the engine never runs a tree with fewer keys per page than the tree supports. -/
+theorem min_keys_at_least_tree_minimum (page cache pool minKeys siblings : Nat) :
+    treeMinKeys ≤ (Config.new page cache pool minKeys siblings).minKeys ∧
+    treeMinKeys ≤ (Config.builder page cache pool minKeys siblings).minKeys := by
+  simp only [Config.new, Config.builder]
+  omega
+
+/-- Witness for the shipped clamping: min keys 2 was accepted although the tree needs 3. -/
+theorem minKeysBelowTreeMinimum_witness :
+    (Config.newShipped 4096 48 1 2 2).minKeys < treeMinKeys ∧ (Config.builderShipped 4096 48 1 0 2).minKeys < treeMinKeys := by
+  decide
+
 /-- the same through the builder -/
 theorem config_roundtrip_builder (page cache pool minKeys siblings : Nat)
-    (h : InDocumentedRange cache (max minKeys 2) siblings) :
+    (h : InDocumentedRange cache (max minKeys treeMinKeys) siblings) :
     let c := Config.builder page cache pool minKeys siblings
     effectiveAtOpen Defects.none (toHeader Defects.none c) = requested c := by
   obtain ⟨h1, h2, h3⟩ := h
   have hp := clampPage_range page
   simp only [effectiveAtOpen, requested, toHeader, Config.builder, headerCacheSize, Defects.none]
   have e1 : clampPage page % 2 ^ 32 = clampPage page := Nat.mod_eq_of_lt (by omega)
-  have e2 : max minKeys 2 % 2 ^ 8 = max minKeys 2 := Nat.mod_eq_of_lt (by omega)
+  have e2 : max minKeys treeMinKeys % 2 ^ 8 = max minKeys treeMinKeys := Nat.mod_eq_of_lt (by omega)
   have e3 : siblings % 2 ^ 8 = siblings := Nat.mod_eq_of_lt (by omega)
   have e4 : min cache 65535 = cache := by omega
   simp [e1, e2, e3, e4]
